@@ -30,6 +30,8 @@ Ev == Rec[l]
 Init == l = 2 /\ owners = 0 /\ blocks = 0
 
 \* the scenario's starting point (one handle, or two for "arc_shared"), then the observer
+\* (the serializer may also panic at its k-th call: "same result" then means the unwind leaves at the same call as
+\*  for the value; count and allocations are judged as for an error)
 SerializeAct ==
     /\ Ev.op = "ser"
     /\ owners' = Ev.count_before /\ blocks' = 1
